@@ -244,6 +244,9 @@ def observe(item):
     import io, contextlib
     rec = {"lit": lit, "intended": canonical(val), "pos": pos, "text": text[:300], "accepted": False, "obs": {"t": "a", "n": []}, "py": {"none": True},
            "api_unifies": True, "cross_unifies": True, "atoms_interned": True}
+    many = pos.endswith("+many-atoms")
+    if many:
+        pos = pos.split("+")[0]
     if pos == "fact":
         src = "p(%s).\n" % text
     elif pos == "head":
@@ -274,6 +277,14 @@ def observe(item):
                 v = real.walk(X)
                 if isinstance(v, real.Atom):
                     rec["atoms_interned"] = (v is yp.atom(v._name)) and (yp.atom(v._name) is yp.atom(v._name))
+                    if many:
+                        # a long-running engine: thousands of other names come and go, the literal's atom is still
+                        # the one object of its name
+                        early = [yp.atom("early%d" % i) for i in range(5)]
+                        for i in range(9000):
+                            yp.atom("name number %d" % i)
+                        rec["atoms_interned"] = rec["atoms_interned"] and (v is yp.atom(v._name)) and all(e is yp.atom(e._name) for e in early) and \
+                            (yp.atom("name number 0") is yp.atom("name number 0"))
         if n != 1:
             rec["obs"] = {"t": "py", "v": "p/1 had %d answers" % n}
         # the same term built through the API unifies with the compiled literal
@@ -307,6 +318,8 @@ def run(tier, seed):
     for i, (lit, val, text) in enumerate(lits):
         for pos in (("fact", "head", "body") if i % 3 == 0 else (("fact", "body")[i % 2],)):
             items.append((lit, val, text, pos))
+        if i % 40 == 0 and lit.get("k") in ("atom", "qatom"):
+            items.append((lit, val, text, "fact+many-atoms"))
     from .. import replay
     chunks = [items[i:i + 100] for i in range(0, len(items), 100)]
     recs = [r for o in replay.pool_map(_observe_chunk, chunks) for r in o]
